@@ -101,6 +101,8 @@ def check_mat2(ctx: Ctx, case) -> bool:
     p, L, left = case["p"], case["L"], case["left"]
     x = gen_mat2(case)
     dim = len(case["shape_pre"])
+    if case.get("negdim"):
+        dim = dim - x.dim()
     mm = lambda a, b: (a @ b) % p
     ops = (lambda a, b: mm(b, a)) if left else mm
     before = x.clone()
@@ -122,7 +124,7 @@ def check_mat2(ctx: Ctx, case) -> bool:
         ctx.fail(case, "mutation: out-of-place cumops changed its input")
         ok = False
     # oracle on the real code: sequential fold
-    want = seq_fold(before, dim, mm, left)
+    want = seq_fold(before, dim % before.dim(), mm, left)
     if y.shape != want.shape or not torch.equal(y, want):
         bad = (y != want).nonzero()[0].tolist() if y.shape == want.shape else "shape"
         ctx.fail(case, f"fold: cumops != sequential fold (L={L}, left={left}, dim={dim}, first bad index {bad})")
@@ -180,6 +182,14 @@ def gen_lie(case):
 def lie_call(case, X):
     P = pp()
     api, dim, left = case["api"], len(case["shape_pre"]), case["left"]
+    if case.get("negdim"):   # the same axis addressed from the end (the last axis holds the item components)
+        dim = dim - X.dim()
+    if api == "cummul_":
+        return P.cummul_(X, dim, left=left)
+    if api == "cumops_":
+        return P.cumops_(X, dim, (lambda a, b: b @ a) if left else (lambda a, b: a @ b))
+    if api == "m.cumops":
+        return X.cumops(dim, (lambda a, b: b @ a) if left else (lambda a, b: a @ b))
     if api == "cumprod":
         return P.cumprod(X, dim, left=left)
     if api == "cummul":
@@ -302,7 +312,7 @@ def run(ctx: Ctx):
         Ls = list(range(1, 4097))
     run_schedule(ctx, Ls)
     # mat2
-    n = ctx.pick(120, 1500)
+    n = ctx.pick(200, 1500)
     cases = []
     for i in range(n):
         pre = small_shape(rng, 2)
@@ -311,18 +321,20 @@ def run(ctx: Ctx):
         hi = 96 if fib > 4 else (400 if ctx.quick else 1200)
         cases.append({"kind": "mat2", "L": pick_L(rng, hi), "p": rng.choice([2, 3, 7, 251, 65521]), "left": rng.random() < 0.5,
                       "shape_pre": pre, "shape_post": post, "api": rng.choice(["cumops", "cumops_"]),
-                      "data_seed": rng.randrange(1 << 30)})
+                      "data_seed": rng.randrange(1 << 30), "negdim": rng.random() < 0.3})
     run_mat2(ctx, cases)
     # lie
-    n = ctx.pick(80, 800)
-    apis = ["cumprod", "cummul", "m.cumprod", "m.cummul", "cumprod_", "m.cumprod_", "m.cummul_", "cumops", "m.cumops_"]
+    n = ctx.pick(160, 1200)
+    apis = ["cumprod", "cummul", "m.cumprod", "m.cummul", "cumprod_", "m.cumprod_", "m.cummul_", "cumops", "m.cumops_",
+            "cummul_", "cumops_", "m.cumops"]
     cases = []
     for i in range(n):
         pre = small_shape(rng, 2)
         post = small_shape(rng, 1)
         cases.append({"kind": "lie", "type": rng.choice(list(GROUPS)), "L": pick_L(rng, 48 if ctx.quick else 130),
                       "left": rng.random() < 0.5, "shape_pre": pre, "shape_post": post, "api": rng.choice(apis),
-                      "dtype": rng.choice(["float64", "float64", "float32"]), "data_seed": rng.randrange(1 << 30)})
+                      "dtype": rng.choice(["float64", "float64", "float32"]), "data_seed": rng.randrange(1 << 30),
+                      "negdim": rng.random() < 0.3})
     run_lie(ctx, cases)
 
 
